@@ -124,7 +124,7 @@ Definition s_exchange (ekv : string * exchange) : string :=
   let '(en, e) := ekv in
   "exchange " ++ en ++ " type=" ++ (match e_type e with ExDirect => "1" | ExFanout => "2" | ExTopic => "3" | ExHeaders => "4" end) ++
   " dur=" ++ sB (e_durable e) ++ " ad=" ++ sB (e_autodel e) ++ " int=" ++ sB (e_internal e) ++
-  " bindings=[" ++ sjoin " " (map s_binding (e_bindings e)) ++ "]".
+  " bindings=[" ++ sjoin " " (sort_by (fun x => x) (map s_binding (e_bindings e))) ++ "]".
 
 Definition sort_kvN {A} (l : list (N * A)) : list (N * A) :=
   fold_right (fun x l => let fix ins l := match l with [] => [x] | y :: t => if N.leb (fst x) (fst y) then x :: l else y :: ins t end in ins l) [] l.
